@@ -623,11 +623,12 @@ func run(c *vf.Ctx) {
 	// ---- Oracle 3 and 4
 	r.limits()
 	r.standard()
+	r.lockSweep()
 
 	r.flush()
 
 	// ---- evidence
-	c.Set("rule", "Every policy tree of each stratum listed under 'strata' (threshold-rooted trees: all shapes within the arity/depth/node bounds x all leaf labellings from the stratum's alphabet x every threshold count N in 0..arity+1; plus every leaf kind and every unlock-conditions variant as root; trees are deduplicated across strata by canonical text) x every signature list of length 0..(signature-consuming leaves+1) over the stratum's signature alphabet x every preimage list of length 0..(hash leaves+1) over the preimage alphabet x heights {h-1,h,h+1} (only for trees with above(h)/uc timelock h) x median times {t-1s,t,t+1s} (only for trees with after(t)). Each (tree, witness lists, height, time) tuple is one evaluation of the real Verify against RefPolicy; every accepting tuple additionally gets one evaluation per revealed sub-policy made opaque and one per witness bit-flip; every tree gets Address() compared with an independent derivation and with Address() of the tree with subsets of nodes replaced by PolicyOpaque (all subsets for <=8 non-root nodes, else all subsets of size <=2 and the set of all root children). Distinct non-trivial = distinct trees + distinct accepting (tree, witnesses, height, time) tuples; all evaluated tuples are distinct by construction.")
+	c.Set("rule", "Every policy tree of each stratum listed under 'strata' (threshold-rooted trees: all shapes within the arity/depth/node bounds x all leaf labellings from the stratum's alphabet x every threshold count N in 0..arity+1; plus every leaf kind and every unlock-conditions variant as root; trees are deduplicated across strata by canonical text) x every signature list of length 0..(signature-consuming leaves+1) over the stratum's signature alphabet x every preimage list of length 0..(hash leaves+1) over the preimage alphabet x heights {h-1,h,h+1} (only for trees with above(h)/uc timelock h) x median times {t-1s,t,t+1s} (only for trees with after(t)). Each (tree, witness lists, height, time) tuple is one evaluation of the real Verify against RefPolicy; every accepting tuple additionally gets one evaluation per revealed sub-policy made opaque and one per witness bit-flip; every tree gets Address() compared with an independent derivation and with Address() of the tree with subsets of nodes replaced by PolicyOpaque (all subsets for <=8 non-root nodes, else all subsets of size <=2 and the set of all root children). Additionally (lock sweep) every ordered pair (lock value, supplied height) of a 19-value boundary set of uint64 (0 .. 2^64-1) and every ordered pair (lock instant, median) of a 14-value set of instants (years 0..9999) in four tree embeddings and as an unlock-conditions timelock. Distinct non-trivial = distinct trees + distinct accepting (tree, witnesses, height, time) tuples; all evaluated tuples are distinct by construction.")
 	c.Set("lock_points", map[string]any{"h": e.h, "t_unix": e.t.Unix()})
 	c.Set("outcomes", map[string]int64{"accepting": r.accepting.Load(), "rejecting": r.rejecting.Load(), "unspecified": r.unspecified.Load()})
 	c.Set("reference_reject_reasons", r.reasons)
@@ -694,6 +695,8 @@ func replay(c *vf.Ctx, raw json.RawMessage) {
 		r.addressOracle(v.Tree, e.build(v.Tree))
 	case "limit":
 		r.limits()
+	case "lock":
+		r.lockSweep()
 	case "standard":
 		r.standard()
 	default:
